@@ -134,8 +134,8 @@ def _c18_ctx(case):
 
 @predicate("fitter-closes-isolating-node-for-foreign-content")
 def _c18_fitter_split(case, observed):
-    """C18: plain fitting (Transform.replace & co) of content one of whose top-level node types cannot be a
-    child of any node open between the isolating node and the insertion point: the fitter closes (splits) the
+    """C18: plain fitting (Transform.replace & co) of content one of whose top-level node types cannot come next
+    (at the insertion point) in any node open between the isolating node and the insertion point: the fitter closes (splits) the
     isolating node to place it outside, as upstream's Fitter does (it only guards isolating nodes of the slice)."""
     op = case.get("op") or {}
     if op.get("op") not in ("replace", "replace_with", "insert", "replace_range", "replace_range_with"):
@@ -161,19 +161,45 @@ def _c18_fitter_split(case, observed):
             cur = cur[0].get("content") or []
     else:
         tops = [op["node"]["type"]]
+    # state of every open node at the insertion point: its content expression derived by the children before it
+    st = []
+    prev = None
+    for t in T[:frm]:
+        if t[0] == "t" and prev is not None and prev[0] == "t" and prev[2] == t[2]:
+            continue  # same text node
+        prev = t
+        if t[0] == "o":
+            if st:
+                st[-1][1] = cexpr.deriv(st[-1][1], t[1])
+            st.append([t[1], c.model.types[t[1]].regex])
+        elif t[0] == "c":
+            st.pop()
+        elif st:
+            st[-1][1] = cexpr.deriv(st[-1][1], t[1] if t[0] == "l" else "text")
+    states = [r for _, r in st[len(st) - len(frontier):]]
     for s in tops:
-        if all(s not in cexpr.symbols(c.model.types[f].regex) for f in frontier):
+        if all(cexpr.deriv(r, s) == cexpr.EMPTY for r in states):
             return True
-    # or: the slice is open at its start through a node of the isolating node's own type, i.e. it carries that
-    # node's closing token; fitted onto the document's node it closes it and the rest needs a new one
-    if "slice" in op:
-        cur = op["slice"].get("content") or []
-        for _ in range(op["slice"].get("openStart", 0)):
-            if not cur:
-                break
-            if cur[0]["type"] == iso_type:
-                return True
-            cur = cur[0].get("content") or []
+    return False
+
+
+@predicate("replace-range-slice-closes-isolating-type")
+def _c18_range_closing(case, observed):
+    """C18: replace_range with a slice that is open at its start through a node of the isolating node's own type and
+    CLOSED at its end: the slice carries that node's closing token; fitted onto the document's node it closes it and
+    what follows the range needs a new one."""
+    op = case.get("op") or {}
+    if op.get("op") != "replace_range" or op["slice"].get("openEnd", 0) != 0:
+        return False
+    c, T, o, cl = _c18_ctx(case)
+    iso_type = T[o][1]
+    cur = op["slice"].get("content") or []
+    for _ in range(op["slice"].get("openStart", 0)):
+        if not cur:
+            break
+        if cur[0]["type"] == iso_type:
+            return True
+        cur = cur[0].get("content") or []
     return False
 
 
@@ -327,4 +353,76 @@ def _c13_non_atom(case, observed):
         if n.tm.is_inline and not n.tm.atom and op["from"] <= n.pos < op["to"] and \
                 c.model.allows_mark(n.parent.type, op["mark"]["type"]):
             return True
+    return False
+
+
+@predicate("add-mark-removal-reaches-nested-inline-content")
+def _c13_nested_removal(case, observed):
+    """C13: add_mark over an inline node N that has content and carries a mark X the new mark excludes: the
+    RemoveMarkStep generated for N spans N's whole extent and RemoveMarkStep.apply strips X from every inline node
+    in it, including a nested node D that keeps X by the rule (a mark of D excludes the new mark, or D's parent does
+    not allow it, so D's own set is not supposed to change)."""
+    op = case.get("op") or {}
+    if op.get("op") != "add_mark":
+        return False
+    from . import adapters
+    from .ref import marks as rmk
+    from .ref import positions as rp
+
+    c = adapters.Ctx(case["schema"], case["spec"]) if case.get("spec") else adapters.ctx(case["schema"])
+    model = c.model
+    ref = rp.RefDoc(model, case["doc"])
+    new = op["mark"]
+
+    def inside(n):
+        return op["from"] < n.pos + n.size and n.pos < op["to"]
+
+    for n in ref.all_nodes():
+        if n.parent is None or n.is_text or n.is_leaf or not n.tm.is_inline or not inside(n):
+            continue
+        if not model.allows_mark(n.parent.type, new["type"]):
+            continue
+        after = rmk.add(model, new, n.marks)
+        displaced = [m for m in n.marks if not rmk.in_set(m, after)]
+        if not displaced:
+            continue
+        stack = list(n.kids)
+        while stack:
+            d = stack.pop()
+            stack.extend(d.kids)
+            if not inside(d):
+                continue
+            keeps = d.marks if not model.allows_mark(d.parent.type, new["type"]) else rmk.add(model, new, d.marks)
+            if any(rmk.in_set(x, d.marks) and rmk.in_set(x, keeps) for x in displaced):
+                return True
+    return False
+
+
+@predicate("clear-incompatible-removal-reaches-nested-inline-content")
+def _c13_nested_clear(case, observed):
+    """C13: set_block_type to a type that forbids a mark X carried by an inline child N that has content: the
+    RemoveMarkStep(X) over N's extent also strips X from inline nodes nested in N (whose parent N allows X)."""
+    op = case.get("op") or {}
+    if op.get("op") != "set_block_type":
+        return False
+    from . import adapters
+    from .ref import marks as rmk
+    from .ref import positions as rp
+
+    c = adapters.Ctx(case["schema"], case["spec"]) if case.get("spec") else adapters.ctx(case["schema"])
+    model = c.model
+    ref = rp.RefDoc(model, case["doc"])
+    for n in ref.all_nodes():
+        if n.parent is None or n.is_text or n.is_leaf or not n.tm.is_inline:
+            continue
+        blk = n.parent
+        if not blk.tm.is_textblock or not (op["from"] <= blk.pos + blk.size and blk.pos <= op["to"]):
+            continue
+        bad = [m for m in n.marks if not model.allows_mark(op["type"], m["type"])]
+        stack = list(n.kids)
+        while stack:
+            d = stack.pop()
+            stack.extend(d.kids)
+            if any(rmk.in_set(x, d.marks) for x in bad):
+                return True
     return False
